@@ -120,8 +120,9 @@ func (g *cubicGen) monitor(kind string, b, a congestion.VerifState, panicked boo
 			return // documented "congestion BUG" panic on a decreasing size, nothing else
 		}
 		if kind == "timeuntil" {
-			g.dist["timeuntil-panic-bw0"]++
-			return // division by a zero bandwidth estimate, see notes/C20.md (not a bound of C20)
+			// the run loop calls TimeUntilSend whenever SendMode is pacing-limited: a panic here kills the process
+			g.monfail("cubic/time-until-send-div-zero", fmt.Sprintf("TimeUntilSend panics (division by a zero bandwidth estimate: cwnd %d bytes, smoothed RTT %d ns)", b.Cwnd, g.srtt()))
+			return
 		}
 		g.monfail("cubic/panic", "panic in "+kind)
 		return
@@ -342,11 +343,122 @@ func (g *cubicGen) opHystartBurst() {
 func (g *cubicGen) opExitSS() {
 	lat, mn := int64(g.v.Rtt.LatestRTT()), int64(g.v.Rtt.MinRTT())
 	b := g.v.State()
+	wasSS := g.v.InSlowStart()
 	g.do("exitss", u.App("ExitSS", u.Z(lat), u.Z(mn)), func() int64 { g.v.MaybeExitSlowStart(); return 0 })
 	a := g.v.State()
-	if a.Ssthresh != b.Ssthresh {
+	// which path of HybridSlowStart.ShouldExitSlowStart / MaybeExitSlowStart was taken (coverage statistics)
+	switch {
+	case !wasSS:
+		g.dist["hystart-not-in-slow-start"]++
+	case a.Ssthresh != b.Ssthresh && b.HsFound:
 		g.dist["hystart-exit"]++
+		g.dist["hystart-exit-found-in-earlier-call"]++
+	case a.Ssthresh != b.Ssthresh:
+		g.dist["hystart-exit"]++
+		g.dist["hystart-exit-at-8th-sample"]++
+	case a.HsFound:
+		g.dist["hystart-found-but-window-below-16-packets"]++
+	case a.HsCount == 8:
+		g.dist["hystart-8th-sample-no-delay-increase"]++
 	}
+	if wasSS && !b.HsStarted && a.HsStarted {
+		g.dist["hystart-round-start"]++
+	}
+	if !b.HsFound && a.HsFound {
+		switch thrUs := mn / 1000 / 8; {
+		case thrUs < 4000:
+			g.dist["hystart-found-threshold-clamped-to-4ms"]++
+		case thrUs > 16000:
+			g.dist["hystart-found-threshold-clamped-to-16ms"]++
+		default:
+			g.dist["hystart-found-threshold-minrtt-over-8"]++
+		}
+	}
+	// (model-independent) MaybeExitSlowStart never touches the window; ssthresh can only drop to it
+	if a.Ssthresh != b.Ssthresh && (a.Ssthresh != b.Cwnd || b.Cwnd >= b.Ssthresh) {
+		g.monfail("cubic/exitss-ssthresh", fmt.Sprintf("MaybeExitSlowStart moved ssthresh %d -> %d with cwnd %d", b.Ssthresh, a.Ssthresh, b.Cwnd))
+	}
+}
+
+// opHystartScenario: slow start as it really proceeds — rounds of about nine packets sent
+// back to back and acknowledged one by one, each ACK bringing an RTT sample and a call of
+// MaybeExitSlowStart; the RTT of the last round rises above min RTT + clamp(min RTT/8, 4ms, 16ms)
+// (or stays just at/below it), for min RTTs in all three clamp regimes.
+func (g *cubicGen) opHystartScenario() {
+	r := g.r
+	var base int64
+	switch r.Intn(3) {
+	case 0:
+		base = int64(r.Range(2, 30)) * 1_000_000 // threshold clamped to 4ms
+	case 1:
+		base = int64(r.Range(33, 120)) * 1_000_000 // threshold = min RTT / 8
+	default:
+		base = int64(r.Range(130, 400)) * 1_000_000 // threshold clamped to 16ms
+	}
+	g.v.Rtt.UpdateRTT(durationNs(base), 0)
+	g.dist["rtt-sample"]++
+	mn := int64(g.v.Rtt.MinRTT())
+	thrUs := mn / 1000 / 8
+	if thrUs > 16000 {
+		thrUs = 16000
+	}
+	if thrUs < 4000 {
+		thrUs = 4000
+	}
+	thr := thrUs * 1000
+	smallWindow := r.Chance(1, 3)
+	if smallWindow {
+		// a window below 16 packets in slow start (only after a retransmission timeout): delay increase is noted but no exit
+		g.do("rto", u.App("RTO", "true"), func() int64 { g.v.OnRetransmissionTimeout(true); return 0 })
+		g.cutMarker = -1
+	}
+	rounds := r.Range(2, 3)
+	if smallWindow {
+		rounds = 3 // the delay increase is found in the first round(s); the exit follows once the window has grown to 16 packets
+	}
+	for rd := 0; rd < rounds; rd++ {
+		k := r.Range(9, 10)
+		var pns []int64
+		size := g.v.State().Mds
+		for i := 0; i < k; i++ {
+			pn, now, srtt := g.nextPN, g.now, g.srtt()
+			g.nextPN++
+			g.do("sent", u.App("Sent", u.Z(now), u.Z(pn), u.Z(size), "true", u.Z(srtt)), func() int64 { g.v.OnPacketSent(now, pn, size, true); return 0 })
+			g.infl = append(g.infl, [2]int64{pn, size})
+			g.bif += size
+			if pn > g.maxSentPN {
+				g.maxSentPN = pn
+			}
+			pns = append(pns, pn)
+			g.now += int64(r.Range(1, 200)) * 1000
+		}
+		inc := r.Pick(0, thr/2, thr-1, thr)
+		if (rd == rounds-1 || smallWindow) && !r.Chance(1, 5) {
+			inc = thr + r.Pick(1, 1, 1000, 5_000_000)
+		}
+		g.now += mn + inc
+		for _, pn := range pns {
+			g.v.Rtt.UpdateRTT(durationNs(mn+inc+int64(r.Range(0, 300))*1000), 0)
+			g.dist["rtt-sample"]++
+			g.opExitSS()
+			for i, p := range g.infl {
+				if p[0] == pn {
+					g.takeInflight(i)
+					break
+				}
+			}
+			prior, now := g.bif+size, g.now
+			orc := int64(0)
+			if !g.v.State().Reno {
+				orc = g.v.CubicAfterAckOracle(size, now)
+			}
+			b := g.v.State()
+			g.do("acked", u.App("Acked", u.Z(pn), u.Z(size), u.Z(prior), u.Z(now), u.Z(orc)), func() int64 { g.v.OnPacketAcked(pn, size, prior, now); return 0 })
+			g.monitorGrowth(b, g.v.State(), prior)
+			g.now += int64(r.Range(1, 200)) * 1000
+		}
+	}
+	g.dist["hystart-scenario"]++
 }
 
 func (g *cubicGen) opAcked() {
@@ -527,13 +639,10 @@ func (g *cubicGen) opQuery() {
 	case 1:
 		srtt := g.srtt()
 		st := g.v.State()
+		gateOpen := g.v.HasPacingBudget(g.now)
 		ret, pan := g.do("timeuntil", u.App("QTimeUntil", u.Z(srtt)), func() int64 { return g.v.TimeUntilSend() })
-		if !pan && ret != 0 {
-			g.dist["timeuntil-nonzero"]++
-			// at the returned time the budget really is one datagram (same bandwidth estimate)
-			if bud := g.v.PacerBudget(ret); bud < st.PMds && ret > st.PLast {
-				g.monfail("cubic/time-until-send-insufficient", fmt.Sprintf("TimeUntilSend=%d but budget then is %d < %d", ret, bud, st.PMds))
-			}
+		if !pan {
+			g.checkPacingWait(st, gateOpen, ret)
 		}
 	case 2:
 		bif := g.pickPrior()
@@ -557,6 +666,25 @@ func (g *cubicGen) opQuery() {
 				g.monfail("cubic/bandwidth-overestimate", fmt.Sprintf("BandwidthEstimate %d > 8*cwnd/srtt = %s (cwnd %d srtt %d)", g.v.BandwidthEstimate(), ideal, st.Cwnd, srtt))
 			}
 		}
+	}
+}
+
+// checkPacingWait: what the run loop relies on when SendMode says "pacing limited". With the gate
+// closed at g.now (HasPacingBudget false), TimeUntilSend must name a time in the future — 0 means
+// "send immediately", and the loop spins — at which HasPacingBudget holds (same bandwidth estimate).
+func (g *cubicGen) checkPacingWait(st congestion.VerifState, gateOpen bool, t int64) {
+	if t != 0 {
+		g.dist["timeuntil-nonzero"]++
+	}
+	if !gateOpen && st.PLast != 0 && g.now >= st.PLast {
+		g.dist["timeuntil-gate-closed"]++
+		if t <= g.now {
+			g.monfail("cubic/pacing-livelock", fmt.Sprintf("HasPacingBudget(%d) is false (sender datagram size %d, pacer's %d, budget at last send %d) but TimeUntilSend=%d is not in the future: the run loop re-arms an immediate deadline and spins", g.now, st.Mds, st.PMds, st.PBudget, t))
+			return
+		}
+	}
+	if t != 0 && t > st.PLast && st.PLast != 0 && t-st.PLast < 1<<61 && !g.v.HasPacingBudget(t) {
+		g.monfail("cubic/time-until-send-insufficient", fmt.Sprintf("TimeUntilSend=%d but HasPacingBudget is still false then (budget %d, sender datagram size %d, pacer's %d)", t, g.v.PacerBudget(t), st.Mds, st.PMds))
 	}
 }
 
@@ -590,6 +718,9 @@ func (g *cubicGen) opPacedBurst() {
 		}
 		g.dist["paced-gate-closed"]++
 		t, pan := g.do("timeuntil", u.App("QTimeUntil", u.Z(srtt)), func() int64 { return g.v.TimeUntilSend() })
+		if !pan {
+			g.checkPacingWait(g.v.State(), false, t)
+		}
 		if pan || t <= g.now {
 			g.now += 100_000
 		} else if g.r.Chance(1, 4) {
@@ -600,6 +731,9 @@ func (g *cubicGen) opPacedBurst() {
 	}
 	num := new(big.Int).Mul(big.NewInt(5), big.NewInt(st.Cwnd)) // rate = num/den bytes per ns
 	den := new(big.Int).Mul(big.NewInt(4), big.NewInt(srtt))
+	if new(big.Int).Mul(num, big.NewInt(1_000_000_000)).Cmp(den) < 0 {
+		num, den = big.NewInt(1), big.NewInt(1_000_000_000) // the pacing rate has a floor of 1 byte/s (it must never be 0)
+	}
 	burst := new(big.Int).Mul(num, big.NewInt(2_000_000))
 	burst.Quo(burst, den)
 	if t := big.NewInt(10 * st.PMds); burst.Cmp(t) < 0 {
@@ -670,6 +804,35 @@ func (g *cubicGen) minAfterMtuWitnessProd() {
 	fmt.Fprintf(g.w, "INFO\tregression witness of cubic/min-after-mtu ends with cwnd %d, two datagrams = %d\n", g.v.Cwnd(), 2*g.v.State().Mds)
 }
 
+// pacingLivelockWitness (fixed case 2, Coq: pacing_livelock_regression): a sender with 1350-byte
+// datagrams (Config.InitialPacketSize = 1350) sends eight full packets and one of 700 bytes back to
+// back, asks HasPacingBudget / TimeUntilSend as the run loop does, sends one more, asks again.
+func (g *cubicGen) pacingLivelockWitness() {
+	const t, srtt = 1000, 100000000
+	g.now = t
+	ask := func() {
+		st := g.v.State()
+		open, _ := g.do("hasbudget", u.App("QBudget", u.Z(t), u.Z(srtt)), func() int64 { return b2i(g.v.HasPacingBudget(t)) })
+		ret, pan := g.do("timeuntil", u.App("QTimeUntil", u.Z(srtt)), func() int64 { return g.v.TimeUntilSend() })
+		if !pan {
+			g.checkPacingWait(st, open == 1, ret)
+		}
+	}
+	for i := int64(0); i < 9; i++ {
+		size := int64(1350)
+		if i == 8 {
+			size = 700
+		}
+		g.do("sent", u.App("Sent", u.Z(t), u.Z(i), u.Z(size), "true", u.Z(srtt)), func() int64 { g.v.OnPacketSent(t, i, size, true); return 0 })
+		g.maxSentPN = i
+	}
+	ask()
+	g.do("sent", u.App("Sent", u.Z(t), "9", "1350", "true", u.Z(srtt)), func() int64 { g.v.OnPacketSent(t, 9, 1350, true); return 0 })
+	g.maxSentPN = 9
+	ask()
+	g.nextPN = 10
+}
+
 func runCubic(w *bufio.Writer, seed uint64, n int, _ []string) {
 	// (verifutil.NewRng(seed) and NewRng(seed+1) produce the same stream shifted by one draw;
 	// spread the seeds so that different VERIF_SEEDs give unrelated cases)
@@ -683,6 +846,9 @@ func runCubic(w *bufio.Writer, seed uint64, n int, _ []string) {
 		mds0 := r.Pick(1200, 1252, 1280, 1280, 1280, 1350, 1452)
 		if r.Chance(1, 12) {
 			mds0 = int64(r.Range(1, 3000))
+		}
+		if ci == 2 {
+			reno, mds0 = true, 1350 // fixed case: the pacing livelock reported by unit C10
 		}
 		if ci <= 1 {
 			reno, mds0 = true, 1280 // fixed first cases: the Coq regression histories witness_short / witness_prod
@@ -698,7 +864,7 @@ func runCubic(w *bufio.Writer, seed uint64, n int, _ []string) {
 			dist["case-cubic"]++
 		}
 		// initial RTT: default 100ms, or restored from a token (arbitrary, incl. extremes)
-		if ci > 1 && r.Chance(1, 5) {
+		if ci > 2 && r.Chance(1, 5) {
 			irtt := r.Pick(1, 999, 1000, 1_000_000, 333_000_000, 1<<40, 1<<62)
 			g.v.Rtt.SetInitialRTT(durationNs(irtt))
 			dist["initial-rtt-set"]++
@@ -707,12 +873,19 @@ func runCubic(w *bufio.Writer, seed uint64, n int, _ []string) {
 		if ci == 0 {
 			g.minAfterMtuWitness()
 		}
+		if ci == 2 {
+			g.pacingLivelockWitness()
+		}
 		if ci == 1 {
 			g.reported = map[string]bool{} // report the finding for this witness too
 			g.minAfterMtuWitnessProd()
 			g.reported = reported
 		}
 		nops := r.Range(4, 36)
+		if ci > 2 && r.Chance(1, 7) {
+			g.opHystartScenario()
+			nops = r.Range(2, 10)
+		}
 		ackruns := 0
 		for k := 0; k < nops; k++ {
 			switch x := r.Intn(100); {
